@@ -24,7 +24,7 @@ PROPS = {
         "rule": "GET with a Range header on objects of size 0..6 (quick) / 0..24 (thorough), 100 and 4097, on all six backend "
                 "instances; headers: all first/last/suffix in -1..n+2 in the three forms, int64/uint32 boundary values in every "
                 "position, whitespace/sign/unit/multi-range variants, seeded token soup. distinct_nontrivial = distinct "
-                "(backend, header, size) whose header reaches the arithmetic (parses as a single range). Malformed headers whose junk after 'bytes=' consists of the unit's own letters or '=' (bytes==1-2, bytes=bytes=1-2, bytes=e1-2 ...). On the real-directory fs backends six ranged reads are each the first read after the metadata records were wiped and the store reopened. Headers with a comma and a foreign or missing unit. Three ranged reads per backend are held open while twelve 40 KB writes commit, then read. Two sevenths of the requests carry a precondition next to the Range header (If-None-Match with an entity tag the object does not have, If-Modified-Since with an old date): it changes nothing. While a ranged read is held open other clients make 24 ranged reads of their own.",
+                "(backend, header, size) whose header reaches the arithmetic (parses as a single range). Malformed headers whose junk after 'bytes=' consists of the unit's own letters or '=' (bytes==1-2, bytes=bytes=1-2, bytes=e1-2 ...). On the real-directory fs backends six ranged reads are each the first read after the metadata records were wiped and the store reopened. Headers with a comma and a foreign or missing unit. Three ranged reads per backend are held open while twelve 40 KB writes commit, then read. Two sevenths of the requests carry a precondition next to the Range header (If-None-Match with an entity tag the object does not have, If-Modified-Since with an old date): it changes nothing. While a ranged read is held open other clients make 24 ranged reads of their own. Two held ranged reads during which the object itself is overwritten.",
         "explanation": "Theorems: for every header string and every object below 2^63 bytes the modelled handler answers exactly "
                        "what the wrap-free spec says and never slices out of bounds. Tie: every run the Go handlers built from "
                        "/repo and the extracted model are evaluated on the same (header, object) cases and status, S3 code, "
@@ -93,7 +93,7 @@ PROPS = {
                 "'/'), seeded subsets of size 3..6 and five 'rich' sets (a-x a/x a.x, UTF-8, nested directories); for each set every "
                 "prefix over {a,b,/} of length <= 3 not starting with '/', delimiter absent and '/' (and 'b' on memory/bolt), V1 or "
                 "V2; the memory backend runs versioned with a delete-marked ghost key; every set is deleted again and the bucket "
-                "re-listed. fs backends: conflict-free sets only. distinct_nontrivial = distinct (backend, key set, prefix, delimiter). A rich set of names a directory walk may treat specially (segments beginning with a dot, a blank, a tilde; ending with a dot); every rich set runs on every backend also in the quick tier. On the real-directory fs backends every tenth set ends with uploads the file system refuses half way; on every backend ghost keys are stored and deleted before the listings. Half of the undelimited listings send an explicit empty delimiter= parameter. On the fs backends every second key set tries uploads one and two levels below a stored object (refused; outside the model); every fs listing is also compared, contents and common prefixes in order, with fs_list of the extracted Model/FsList.v on the directory tree of the live keys. On the memory backend every third key set deletes two delete-marked ghost keys once more while versioning is suspended. On the memory backend every fourth key set removes the current version of a key with three versions by its id (the newest remaining one is listed) and of a key whose newest remaining version is a delete marker (hidden again). c03Unclean: on the key-value backends u/v u//v u///v u/./w u/w u/../x x with distinct sizes, listed V1/V2 under six prefix/delimiter combinations, path-style and through host-bucket-base / host-bucket servers, before and after two deletes. A rich key set of base64-sensitive keys; on the memory backend V2 walks (1 and 2 entries a page) over every rich set, every other one handing the server's token back verbatim. Two of the V2 walks start from a start-after that is resent next to every continuation token.",
+                "re-listed. fs backends: conflict-free sets only. distinct_nontrivial = distinct (backend, key set, prefix, delimiter). A rich set of names a directory walk may treat specially (segments beginning with a dot, a blank, a tilde; ending with a dot); every rich set runs on every backend also in the quick tier. On the real-directory fs backends every tenth set ends with uploads the file system refuses half way; on every backend ghost keys are stored and deleted before the listings. Half of the undelimited listings send an explicit empty delimiter= parameter. On the fs backends every second key set tries uploads one and two levels below a stored object (refused; outside the model); every fs listing is also compared, contents and common prefixes in order, with fs_list of the extracted Model/FsList.v on the directory tree of the live keys. On the memory backend every third key set deletes two delete-marked ghost keys once more while versioning is suspended. On the memory backend every fourth key set removes the current version of a key with three versions by its id (the newest remaining one is listed) and of a key whose newest remaining version is a delete marker (hidden again). c03Unclean: on the key-value backends u/v u//v u///v u/./w u/w u/../x x with distinct sizes, listed V1/V2 under six prefix/delimiter combinations, path-style and through host-bucket-base / host-bucket servers, before and after two deletes. A rich key set of base64-sensitive keys; on the memory backend V2 walks (1 and 2 entries a page) over every rich set, every other one handing the server's token back verbatim. Two of the V2 walks start from a start-after that is resent next to every continuation token. On the memory backend, listings that start behind the last key (marker, start-after, continuation token).",
         "explanation": "Theorems: Prefix.Match equals the declarative classification (string prefix, first delimiter after it) for "
                        "every key/prefix/delimiter in the property's domain, and the unpaginated listing is exactly filter+group of the "
                        "sorted live keys. Tie: ListObjects responses (keys in order, sizes, ETags, common prefixes) of the Go handlers "
@@ -124,7 +124,7 @@ PROPS = {
                 "upload-part with part numbers in {1..4, 7, 9999, 10000, 10001, 0, -1} incl. re-uploads and empty bodies, complete with "
                 "the full ascending list / a subset / a permutation / an unknown number / a wrong ETag / a duplicate / unquoted ETags / "
                 "an empty list, abort, get, list-parts, list-uploads over two keys with several simultaneous uploads; final probe "
-                "GET/HEAD of every key and listing of every pending upload. distinct_nontrivial = distinct successful completes. c06CompleteOverlap (every backend): the backend write of a complete is held open while an abort, a part upload or a second complete of the same upload arrives; both finish, exactly one of complete / abort takes effect. One in six part uploads of a history is a refused (re-)upload (digest of other bytes, more bytes than declared). c06EmptyUploadID: part upload, part listing, complete and abort with an empty uploadId are refused and leave the object of that key alone. Half of the histories run on keys with a '%' that is no escape and a blank (50%off, sales/growth 100%.csv, a%zz, p%/q%2). A third of the initiations with metadata give a header with an empty value. A fifth of the part uploads carry Content-Type: application/x-www-form-urlencoded.",
+                "GET/HEAD of every key and listing of every pending upload. distinct_nontrivial = distinct successful completes. c06CompleteOverlap (every backend): the backend write of a complete is held open while an abort, a part upload or a second complete of the same upload arrives; both finish, exactly one of complete / abort takes effect. One in six part uploads of a history is a refused (re-)upload (digest of other bytes, more bytes than declared). c06EmptyUploadID: part upload, part listing, complete and abort with an empty uploadId are refused and leave the object of that key alone. Half of the histories run on keys with a '%' that is no escape and a blank (50%off, sales/growth 100%.csv, a%zz, p%/q%2). A third of the initiations with metadata give a header with an empty value. A fifth of the part uploads carry Content-Type: application/x-www-form-urlencoded. One in ten multipart requests addresses a live upload by another spelling of its id (leading zeros, sign, blanks).",
         "explanation": "Theorems over the uploader model: an accepted complete stores exactly the concatenation of the latest upload of "
                        "each listed part with the composite ETag and the initiation metadata and removes the upload; a rejected "
                        "complete and an abort leave object and pending upload state as required. Tie: every response (status, code, "
@@ -142,7 +142,7 @@ PROPS = {
                 "following NextPartNumberMarker and single pages from markers {0,1,2,4,13,14,41,42,10^6}; ListMultipartUploads walks "
                 "for every max-uploads 1..n+1 over six prefix/delimiter combinations following (NextKeyMarker, NextUploadIdMarker); "
                 "each walk is checked by a model-independent oracle (bound, every entry once, concatenation = unpaginated, each common "
-                "prefix once) and page by page against the model. distinct_nontrivial = distinct walks. A fixed history lists uploads whose groups are not neighbours in key order (/a/x, /b/x, a/y) unpaginated against the model. Every eighth history uses keys with white space at either end. Every second history ends by aborting what is left and listing the uploads of the bucket. A sixth of the part uploads spell the part number as a client may (010, 008, +3, 00013 decimal; 0x10, 0b11, 0o17, 1_0, 1e1, ' 5' name no part). A third of the uploads to a held part number are re-uploads the server refuses (digest of other bytes / more bytes than declared), followed by a part listing. An eighth of the part operations use the upload id through the key of another upload.",
+                "prefix once) and page by page against the model. distinct_nontrivial = distinct walks. A fixed history lists uploads whose groups are not neighbours in key order (/a/x, /b/x, a/y) unpaginated against the model. Every eighth history uses keys with white space at either end. Every second history ends by aborting what is left and listing the uploads of the bucket. A sixth of the part uploads spell the part number as a client may (010, 008, +3, 00013 decimal; 0x10, 0b11, 0o17, 1_0, 1e1, ' 5' name no part). A third of the uploads to a held part number are re-uploads the server refuses (digest of other bytes / more bytes than declared), followed by a part listing. An eighth of the part operations use the upload id through the key of another upload. ListParts with part-number markers beyond int64 (2^63 .. 10^40): refused or empty. Upload listings from key markers behind the last upload (made up, and handed out before the uploads behind them were aborted): empty and final; a truncated page has to have something on it.",
         "explanation": "Theorems over the uploader model's listings (exactness w.r.t. the pending uploads / held parts, paging). Tie: "
                        "every page from the Go handlers vs the extracted model plus the walk oracle on the implementation's pages.",
         "assumptions": [],
@@ -177,7 +177,7 @@ PROPS = {
                 "bases (first / second base, configured with stray dots and a port); fall-backs (localhost, the base itself, a "
                 "multi-label prefix, an unrelated host); path-style with an extra leading and with a trailing slash. A recording "
                 "backend wrapper reports the bucket/key each handler addressed. distinct_nontrivial = distinct (variant, method, "
-                "sub-resource, bucket, key). Keys named like their bucket (bkt, bkt/k, bkt.s3.example.com/k) are in the pool. Twins for every order and combination of the two host options, host-bucket named explicitly off included. c16Concurrent: 16 x 1500 simultaneous host-style requests for 4 buckets to one server (bases, and plain host-bucket). Twins whose configured bases include <bucket>.<another base>. Four twins whose host-base option is given twice (the later list replaces the earlier; an empty list switches the bases off, alone and before host-bucket). Four twins whose bases begin with the letters of a URL scheme (test.example, host.example:9000, play.example, p.example, http.example). A quarter of the uploads have an empty body. Creates include valid names of several labels, addressed path-style through a fallback host.",
+                "sub-resource, bucket, key). Keys named like their bucket (bkt, bkt/k, bkt.s3.example.com/k) are in the pool. Twins for every order and combination of the two host options, host-bucket named explicitly off included. c16Concurrent: 16 x 1500 simultaneous host-style requests for 4 buckets to one server (bases, and plain host-bucket). Twins whose configured bases include <bucket>.<another base>. Four twins whose host-base option is given twice (the later list replaces the earlier; an empty list switches the bases off, alone and before host-bucket). Four twins whose bases begin with the letters of a URL scheme (test.example, host.example:9000, play.example, p.example, http.example). A quarter of the uploads have an empty body. Creates include valid names of several labels, addressed path-style through a fallback host. Fallback twins for hosts with dots around <bucket>.<base> (root dot, leading dot, two root dots).",
         "explanation": "Theorems: the routed (bucket, object) of a host-style request equals that of the path-style request for every "
                        "bucket label, key path and base list; unmatched hosts fall back unchanged; extra slashes do not change the "
                        "address. Tie: recorded backend addresses of the Go handlers vs the extracted router; spec oracle: canonical "
@@ -194,7 +194,7 @@ PROPS = {
                 "resolves to), walks for max-keys 1..n+1 over four prefix/delimiter combinations following (NextKeyMarker, "
                 "NextVersionIdMarker) checked by a model-independent oracle (bound, every entry once, concatenation = unpaginated) and "
                 "page by page against the model, and single pages from marker pairs naming existing versions. distinct_nontrivial = "
-                "distinct walks. Every fifth history opens with deletes made while versioning is suspended over enabled-era versions; once versioning has ever been enabled every entry of the full listing is read back by the id it is listed with. Every fourth history has keys containing '+', a blank and '%20'. The marker pairs naming existing versions are also sent under five prefix / delimiter combinations (the marker's key inside, outside or grouped by the prefix). Every third suspension is sent as a versioning document that does not mention the status. Every fourth history has a key that begins with the delimiter (unpaginated grouped listings only). The histories with a leading-delimiter key also hold a key equal to a prefix and list with prefix p and delimiter /.",
+                "distinct walks. Every fifth history opens with deletes made while versioning is suspended over enabled-era versions; once versioning has ever been enabled every entry of the full listing is read back by the id it is listed with. Every fourth history has keys containing '+', a blank and '%20'. The marker pairs naming existing versions are also sent under five prefix / delimiter combinations (the marker's key inside, outside or grouped by the prefix). Every third suspension is sent as a versioning document that does not mention the status. Every fourth history has a key that begins with the delimiter (unpaginated grouped listings only). The histories with a leading-delimiter key also hold a key equal to a prefix and list with prefix p and delimiter /. Markers behind the last key (made up, and handed out before the keys behind them were removed); every truncated listing has to name a key marker to go on from. Every second leading-delimiter history holds another group between that key and its plain twins.",
         "explanation": "Theorems over the version-listing model (exactness w.r.t. the stored versions, one IsLatest per key = the "
                        "current version, paging). Tie: every page from the Go handlers vs the extracted model, version ids through "
                        "the bijection, plus the walk oracle on the implementation's pages.",
@@ -212,7 +212,7 @@ PROPS = {
                 "same digest x length matrix, bad part numbers and failing readers for upload-part; after each request a snapshot "
                 "(GET+HEAD of the previous object incl. metadata, GET of the absent key, bucket listing, ListParts of the pending "
                 "upload) is compared with the model, whose state is unchanged by a rejected request. distinct_nontrivial = distinct "
-                "(backend, integrity, target, digest kind, length delta / failure point). Uploads the backend itself refuses (a path segment longer than a file name on real directories) are rejected uploads too: listings with and without delimiter and the other object are compared before and after, and the refused key must afterwards read as NoSuchKey and delete quietly. Key-limit cases in multi-byte characters: 512 / 513 two-byte, 342 three-byte, 257 four-byte characters (the limit counts bytes). An aws-chunked part with the Content-MD5 of its payload (accepted), of its framed bytes and of other bytes (refused, the held part unchanged). Multipart initiates with metadata totalling limit-1 / limit / limit+1 / limit+100. Bodies ending in LF / CRLF / CRLFCRLF with the declared length leaving exactly the line terminators out, with and without the digest of the bytes sent, plain and aws-chunked. Uploads to keys well inside the limit whose segments take 230 / 240 bytes in 115 / 80 multi-byte characters (accepted everywhere). Browser-form uploads with 400 / 900 / 1600 bytes of metadata against the configured limit of 300. Uploads without Content-Length that carry X-Amz-Decoded-Content-Length (plain and framed bodies).",
+                "(backend, integrity, target, digest kind, length delta / failure point). Uploads the backend itself refuses (a path segment longer than a file name on real directories) are rejected uploads too: listings with and without delimiter and the other object are compared before and after, and the refused key must afterwards read as NoSuchKey and delete quietly. Key-limit cases in multi-byte characters: 512 / 513 two-byte, 342 three-byte, 257 four-byte characters (the limit counts bytes). An aws-chunked part with the Content-MD5 of its payload (accepted), of its framed bytes and of other bytes (refused, the held part unchanged). Multipart initiates with metadata totalling limit-1 / limit / limit+1 / limit+100. Bodies ending in LF / CRLF / CRLFCRLF with the declared length leaving exactly the line terminators out, with and without the digest of the bytes sent, plain and aws-chunked. Uploads to keys well inside the limit whose segments take 230 / 240 bytes in 115 / 80 multi-byte characters (accepted everywhere). Browser-form uploads with 400 / 900 / 1600 bytes of metadata against the configured limit of 300. Uploads without Content-Length that carry X-Amz-Decoded-Content-Length (plain and framed bodies). An aws-chunked part re-sent with other bytes under the first digest and cut short at every point of the framed stream.",
         "explanation": "Theorems: the modelled upload path accepts iff the digest (when checked) matches the bytes received and the "
                        "declared length equals the body length; every rejection — for every reader failure point k — returns the state "
                        "unchanged. Tie: responses and before/after snapshots of the Go handlers on all six backends vs the extracted "
@@ -233,7 +233,7 @@ PROPS = {
                 "backends, every file on disk classified by bucket root) is compared with the snapshot before by the frame oracle: "
                 "only entries of the addressed (bucket, key) may change, a refused operation may change nothing, no file may appear "
                 "outside the addressed bucket's roots. Memory and bolt are additionally stepped against the model. "
-                "distinct_nontrivial = distinct (backend, bucket, key, status). Buckets bkc2 and bkc.x (names beginning with the name of bucket bkc) hold objects while the empty bucket bkc is created and deleted; the snapshot also records the common prefixes of a delimiter listing and, on real directories, the directories on disk; copies are also attempted from source buckets . .. buckets metadata _meta ./<bucket> spelling the path to a stored object (must be refused); every history ends with a force-delete (x-minio-force-delete) of a bucket that holds keys named like other buckets, under the frame oracle only. On memory and bolt the creation date is part of a bucket's list entry in the snapshot. The snapshot holds every pending multipart upload with its parts; uploads are started and their ids then used through another key of the bucket (refused, nothing changes). A third of the listings carry prefixes that spell paths to other buckets; everything listed must be a key written to the addressed bucket under that prefix. Listing completeness: for prefixes cut from stored keys, and at the end of every history for the beginning of every held key with and without delimiter, every key held under the prefix is shown or lies under a shown common prefix; the key-value backends hold /lead next to lead. c02Nesting at the end of every history: an upload above or below a stored key is refused or stored, never at the cost of the key that was there, and what is served is listed. Every history opens by storing n.tmp n~ n.part n.new .n.tmp n.bak .n.swp and then uploads n. A fifth of the uploads go through the browser form; every history opens with a form upload of /lead. A second host-style variant on a plain host-bucket server (frame oracle only); every history deletes a key below the zero-byte object, uploads a key whose first segment is its bucket's name, and ends with twelve hostile-prefix listings per bucket.",
+                "distinct_nontrivial = distinct (backend, bucket, key, status). Buckets bkc2 and bkc.x (names beginning with the name of bucket bkc) hold objects while the empty bucket bkc is created and deleted; the snapshot also records the common prefixes of a delimiter listing and, on real directories, the directories on disk; copies are also attempted from source buckets . .. buckets metadata _meta ./<bucket> spelling the path to a stored object (must be refused); every history ends with a force-delete (x-minio-force-delete) of a bucket that holds keys named like other buckets, under the frame oracle only. On memory and bolt the creation date is part of a bucket's list entry in the snapshot. The snapshot holds every pending multipart upload with its parts; uploads are started and their ids then used through another key of the bucket (refused, nothing changes). A third of the listings carry prefixes that spell paths to other buckets; everything listed must be a key written to the addressed bucket under that prefix. Listing completeness: for prefixes cut from stored keys, and at the end of every history for the beginning of every held key with and without delimiter, every key held under the prefix is shown or lies under a shown common prefix; the key-value backends hold /lead next to lead. c02Nesting at the end of every history: an upload above or below a stored key is refused or stored, never at the cost of the key that was there, and what is served is listed. Every history opens by storing n.tmp n~ n.part n.new .n.tmp n.bak .n.swp and then uploads n. A fifth of the uploads go through the browser form; every history opens with a form upload of /lead. A second host-style variant on a plain host-bucket server (frame oracle only); every history deletes a key below the zero-byte object, uploads a key whose first segment is its bucket's name, and ends with twelve hostile-prefix listings per bucket. Memory-backend histories end with every version of one key of a versioned bucket removed by id: the key next to it stays listed and readable.",
         "explanation": "Theorems: frame laws of the model (an operation addressed to (bucket, key) changes no other (bucket, key); keys "
                        "that differ as byte strings are different objects; an unknown bucket name is never served). Tie: model "
                        "comparison on the opaque-key backends; the model-free frame oracle (extracted from Coq) on the observations "
@@ -279,7 +279,7 @@ PROPS = {
                 "metadata sets (none; Content-Type + x-amz-meta; Content-Type + Content-Encoding + Content-Disposition + a 900-byte "
                 "value), uploaded by PUT (with and without Content-MD5), browser-form POST, copy, and Backend.PutObject; each followed "
                 "by GET and HEAD over HTTP (and through the Backend API) and a listing of the key; later operations on other keys, "
-                "then the same reads again. distinct_nontrivial = distinct (backend, integrity, upload path, size, key). Copies are made inside the bucket and, every third one, from a second bucket that holds an object of the destination's name (which must stay what it is). On the key-value backends the twin-key groups include keys that differ by leading or doubled slashes (lead, /lead, //lead). Two keys carry white space at their ends (blank-padded; a tab and a trailing blank). heldRead: an object opened through Backend.GetObject is read after its key was overwritten; the bytes are those its size and hash describe. apiPutReusedBuffer: Go-API uploads from a buffer the caller refills afterwards. On every second store the twin-key groups are written and read virtual-host style (host-bucket / host-bucket-base server on the same backend). recycledBucketPut: an upload whose body is held back while its empty bucket is deleted and created again; if acknowledged it is readable. The same bytes uploaded again to a key under other metadata (PUT, form POST, aws-chunked, Go API, copy onto itself; also an empty body); keys whose segments take 230 and 240 bytes in 115 and 80 characters. apiPutReusedMap: one metadata map handed to Backend.PutObject for two uploads and changed afterwards; the stored objects keep what each call was given. heldRead makes the overwrite plus eight 40 KB uploads and their deletes while its read is open. Eleven Content-Type spellings that are valid but not canonical (and upper-case Content-Disposition / Content-Encoding values) uploaded by PUT, form POST and Go API. Two metadata sets carry a form Content-Type (application/x-www-form-urlencoded, multipart/form-data).",
+                "then the same reads again. distinct_nontrivial = distinct (backend, integrity, upload path, size, key). Copies are made inside the bucket and, every third one, from a second bucket that holds an object of the destination's name (which must stay what it is). On the key-value backends the twin-key groups include keys that differ by leading or doubled slashes (lead, /lead, //lead). Two keys carry white space at their ends (blank-padded; a tab and a trailing blank). heldRead: an object opened through Backend.GetObject is read after its key was overwritten; the bytes are those its size and hash describe. apiPutReusedBuffer: Go-API uploads from a buffer the caller refills afterwards. On every second store the twin-key groups are written and read virtual-host style (host-bucket / host-bucket-base server on the same backend). recycledBucketPut: an upload whose body is held back while its empty bucket is deleted and created again; if acknowledged it is readable. The same bytes uploaded again to a key under other metadata (PUT, form POST, aws-chunked, Go API, copy onto itself; also an empty body); keys whose segments take 230 and 240 bytes in 115 and 80 characters. apiPutReusedMap: one metadata map handed to Backend.PutObject for two uploads and changed afterwards; the stored objects keep what each call was given. heldRead makes the overwrite plus eight 40 KB uploads and their deletes while its read is open. Eleven Content-Type spellings that are valid but not canonical (and upper-case Content-Disposition / Content-Encoding values) uploaded by PUT, form POST and Go API. Two metadata sets carry a form Content-Type (application/x-www-form-urlencoded, multipart/form-data). Every history ends with keys uploaded one and two levels below (and above) an acknowledged object.",
         "explanation": "Theorems: read-your-writes with the exact body and the metadata sent (C01_roundtrip), HEAD/GET agreement, "
                        "stability under operations on other keys (frame), listing entry = current version. Tie: the responses of the Go "
                        "handlers and of the Go Backend API vs the extracted model, with length and MD5 recomputed by the checker.",
